@@ -469,6 +469,19 @@ impl Check for C19 {
                         Some(0) => vec![],
                         Some(_) => vec![Prop::MaximumQoS(0)],
                     };
+                    // half of these: the broker assigns a client identifier on the first
+                    // connection and repeats it, in front of the other properties, on the
+                    // second one (unusual, not forbidden); other properties surround the cap
+                    let (mut prior, mut props) = (prior, props);
+                    if rng.chance(1, 2) {
+                        prior.push(Prop::AssignedClientId("srv-assigned-7".into()));
+                        props.insert(0, Prop::AssignedClientId("srv-assigned-7".into()));
+                        if rng.chance(1, 2) {
+                            props.insert(0, Prop::ReceiveMaximum(5));
+                            props.push(Prop::ServerKeepAlive(0));
+                        }
+                        out.count("qos_cap_cells_with_repeated_assigned_identifier", 1);
+                    }
                     steps.push(connect_with(SpMode::Force(false), AckMode::Immediate, prior));
                     steps.push(Step::DropConn);
                     steps.push(connect_with(SpMode::Force(state == 3), AckMode::Immediate, props));
